@@ -23,6 +23,10 @@ type c12Case struct {
 	Over  CfgSpec   `json:"overrides_b"` // B = A's option values + these overrides (only non-zero fields)
 	Calls []c12Call `json:"calls"`
 	Mode  Mode      `json:"mode"`
+	// RmDirAt > 0: before call number RmDirAt the first test ends, the whole snapshot directory is removed (a test
+	// tidying up its scratch directory) and the remaining calls run in a second test. Those calls must behave exactly as
+	// they do in a process that makes only them (the directory is created again).
+	RmDirAt int `json:"rmdir_before_call,omitempty"`
 }
 
 // optionValues builds the option functions of a spec (Dir relative to root); zero fields produce no option.
@@ -108,6 +112,9 @@ func genC12(t *rapid.T) c12Case {
 		}
 		c.Calls = append(c.Calls, c12Call{Call: call, Via: rapid.SampledFrom([]string{"A", "A", "A", "B", "late"}).Draw(t, "via")})
 	}
+	if n >= 2 && rapid.IntRange(0, 3).Draw(t, "rmdir") == 0 {
+		c.RmDirAt = rapid.IntRange(2, n).Draw(t, "rmdirat")
+	}
 	return c
 }
 
@@ -116,7 +123,11 @@ type c12Obs struct {
 	dir      dirState
 }
 
-func runC12(c c12Case, shared bool) (c12Obs, error) {
+func runC12(c c12Case, shared bool) (c12Obs, error) { return runC12From(c, shared, 0) }
+
+// runC12From with from > 0 is the reference of the remove-directory relation: a process that makes only the calls
+// from index from on (in the second test), nothing before them.
+func runC12From(c c12Case, shared bool, from int) (c12Obs, error) {
 	root := scratchDir()
 	defer os.RemoveAll(root)
 	newProcess(c.Mode)
@@ -139,10 +150,25 @@ func runC12(c c12Case, shared bool) (c12Obs, error) {
 		Call{API: "sjson", Doc: BS(witnessDoc), Form: "bytes"}.invoke(cfg, wt)
 		wt.finish()
 	}
-	witness("TestWitnessBefore")
+	if from == 0 {
+		witness("TestWitnessBefore")
+	}
 	ft := newFakeT("TestCfg")
+	if from > 0 {
+		ft = newFakeT("TestCfgAfterRemoval")
+	}
 	var obs c12Obs
 	for i, cc := range c.Calls {
+		if i < from {
+			continue
+		}
+		if from == 0 && c.RmDirAt > 0 && i == c.RmDirAt-1 {
+			ft.finish()
+			if err := os.RemoveAll(root); err != nil {
+				return obs, fmt.Errorf("harness: %v", err)
+			}
+			ft = newFakeT("TestCfgAfterRemoval")
+		}
 		var cfg *Config
 		switch {
 		case !shared && cc.Via == "B":
@@ -167,6 +193,9 @@ func runC12(c c12Case, shared bool) (c12Obs, error) {
 	ft.finish()
 	witness("TestWitnessAfter")
 	obs.dir = snapDir(root)
+	if from > 0 || c.RmDirAt > 0 {
+		return obs, nil // the first witness is gone with the directory
+	}
 	// compare what the two witness executions stored
 	spec := c.Spec
 	mp := spec.multiPath()
@@ -211,6 +240,21 @@ func checkC12(c c12Case) error {
 	if d := diffDirs(freshObs.dir, sharedObs.dir, false); d != "" {
 		return fmt.Errorf("snapshots written through shared Configs differ from those written through fresh Configs with the same options (fresh -> shared): %s", d)
 	}
+	if c.RmDirAt > 0 {
+		alone, err := runC12From(c, true, c.RmDirAt-1)
+		if err != nil {
+			return fmt.Errorf("calls %d.. alone: %v", c.RmDirAt, err)
+		}
+		for i := range alone.outcomes {
+			k := c.RmDirAt - 1 + i
+			if sharedObs.outcomes[k] != alone.outcomes[i] {
+				return fmt.Errorf("call %d (%s via %s) after the snapshot directory was removed: outcome %s, but %s in a process that makes only the calls from %d on (what a call does depends on the calls made earlier)", k+1, c.Calls[k].Call.API, c.Calls[k].Via, sharedObs.outcomes[k], alone.outcomes[i], c.RmDirAt)
+			}
+		}
+		if d := diffDirs(alone.dir, sharedObs.dir, false); d != "" {
+			return fmt.Errorf("after the snapshot directory was removed before call %d, the directory differs from the one of a process that makes only the calls from %d on (alone -> after removal): %s", c.RmDirAt, c.RmDirAt, d)
+		}
+	}
 	return nil
 }
 
@@ -232,6 +276,10 @@ func classifyC12(c c12Case) ([]string, bool) {
 	}
 	if len(apis) >= 3 {
 		cls = append(cls, "three_or_more_apis")
+		nt = true
+	}
+	if c.RmDirAt > 0 {
+		cls = append(cls, "snapshot_dir_removed_between_calls")
 		nt = true
 	}
 	if c.Spec.JSON != nil && c.Over.JSON != nil {
